@@ -68,11 +68,13 @@ func (r *ShallowUpdate) decodeUnshallowLine(line []byte) error {
 }
 
 func (r *ShallowUpdate) decodeLine(line, prefix []byte, expLen int) (plumbing.Hash, error) {
-	if len(line) != expLen {
+	// expLen is the line length for a SHA-1 object id; a SHA-256 id makes
+	// the line sha256HexSize-sha1HexSize characters longer.
+	if len(line) != expLen && len(line) != expLen+sha256HexSize-sha1HexSize {
 		return plumbing.ZeroHash, fmt.Errorf("malformed %s%q", prefix, line)
 	}
 
-	raw := string(line[expLen-40 : expLen])
+	raw := string(line[expLen-sha1HexSize:])
 	return plumbing.NewHash(raw), nil
 }
 
